@@ -222,6 +222,17 @@ pub fn run(out: &mut Out, tier: &str, seed: u64, corpus: Option<&str>, prop: &st
                 let extra = *rng.pick(&[0usize, 0, 1, 3, 17]);
                 single_surface(out, fi, w, h, color, extra, rng.chance(1, 3), &mut rng);
             }
+            // every input colour format at widths beyond the staging buffers (512 pixels, 4096 bytes of any of the 12 pixel sizes)
+            let Some(support) = FORMATS[fi].0.encoding_support() else { continue; };
+            let (mx, my) = support.size_multiple().map(|(a, b)| (a.get(), b.get())).unwrap_or((1, 1));
+            for color in 0..12usize {
+                for (wi, w0) in [342u32 + (fi as u32 % 3), 1025, 1366 + color as u32].into_iter().enumerate() {
+                    if !thorough && (fi + color + wi) % 2 == 1 { continue; }
+                    let w = w0.div_ceil(mx) * mx; let h = (1 + (color as u32 + wi as u32) % 3).div_ceil(my) * my;
+                    single_surface(out, fi, w, h, color, if wi == 1 { 5 } else { 0 }, wi == 2, &mut rng);
+                    out.count("single_wide_all_colours");
+                }
+            }
         }
     }
     if let Some(p) = corpus {
